@@ -11,19 +11,58 @@ package did
 //@   ensures [C10,C16] spec: result == didDefined(d)
 //@   assigns [C20] nothing
 //@
-//@ // the multicodec codes the parser accepts
-//@ pure func parseSet(c int) bool = c == Ed25519 || c == P256 || c == Secp256k1 || c == RSA
+//@ // the multicodec codes the parser accepts / the codes FromPubKey can produce
+//@ pure func parseSet(c int) bool = c == Ed25519 || c == P256 || c == P384 || c == P521 || c == Secp256k1 || c == RSA
+//@ pure func genSet(c int) bool = c == Ed25519 || c == RSA || c == Secp256k1 || c == P256 || c == P384 || c == P521
 //@
 //@ // parsedDID names the value Parse returns (Parse is a function of its argument)
 //@ ghost func parsedDID(s string) DID
 //@ ghost func pubKeyOf(d DID) crypto.PubKey
 //@
+//@ // ---- C16: the text form ------------------------------------------------------------------------------------------
+//@ // what Parse accepts, and what it returns, as functions of the text
+//@ pure func parseOK(str string) bool =
+//@     hasPrefix(str, "did:key:") && mbDecErr(substr(str, 8, len(str))) == nil && mbDecBase(substr(str, 8, len(str))) == 122
+//@  && uvErr(mbDecData(substr(str, 8, len(str)))) == nil && parseSet(uvVal(mbDecData(substr(str, 8, len(str)))))
+//@ pure func strOf(d DID) string = "did:key:" ++ mbEnc(122, d.bytes)
 //@ func Parse
 //@   assumes result1 == nil ==> result0 == parsedDID(str)
 //@   ensures [C16,C10] accepted: result1 == nil ==> hasPrefix(str, "did:key:") && parseSet(result0.code) && didDefined(result0)
+//@   ensures [C16] exact: (result1 == nil) == parseOK(str)
+//@   ensures [C16] value: result1 == nil ==> result0.bytes == mbDecData(substr(str, 8, len(str))) && result0.code == uvVal(result0.bytes)
 //@   ensures [C16] rejected: result1 != nil ==> result0 == Undef
+//@   ensures [C16] wf: result1 == nil ==> wfDID(result0)
+//@   ensures [C09] total: true
+//@   use uv_canonical
 //@   assigns [C20] nothing
+//@ func (DID).String
+//@   ensures [C16] text: result == strOf(d)
+//@   ensures [C09] total: true
+//@ // printing then parsing gives back the DID, for every DID made of the varint of a generatable code followed by key material
+//@ lemma [C16] text_roundtrip(d DID, m string):
+//@     genSet(d.code) && d.bytes == uvarint(d.code) ++ m ==> parseOK(strOf(d)) && mbDecData(substr(strOf(d), 8, len(strOf(d)))) == d.bytes && uvVal(d.bytes) == d.code
+//@   use mb_roundtrip, uv_roundtrip
 //@
+//@ // ---- C16: from a key ---------------------------------------------------------------------------------------------
+//@ // FromPubKey: a generatable code, and the bytes start with the varint of exactly that code
+//@ func FromPubKey
+//@   requires pubKey != nil
+//@   use uv_len, curves_distinct, pkix_of_libp2p_key
+//@   ensures [C16] code: result1 == nil ==> genSet(result0.code) && hasPrefix(result0.bytes, uvarint(result0.code)) && didDefined(result0)
+//@   ensures [C16] rejected: result1 != nil ==> result0 == Undef
+//@   ensures [C09] total: true
+//@
+//@ // a DID as produced by Parse or FromPubKey: the bytes start with the varint of the code
+//@ pure func wfDID(d DID) bool = hasPrefix(d.bytes, uvarint(d.code)) && 0 <= d.code
 //@ func (DID).PubKey
-//@   trusted
-//@   ensures result1 == nil ==> result0 != nil && result0 == pubKeyOf(d)
+//@   requires wfDID(d)
+//@   use uv_len
+//@   assumes result1 == nil ==> result0 != nil && result0 == pubKeyOf(d)
+//@   // one key, one DID: a secp256k1 identifier yields a key only in the compressed form (33 bytes) that FromPubKey produces
+//@   ensures [C16] canonical: result1 == nil && d.code == Secp256k1 ==> len(d.bytes) == len(uvarint(d.code)) + 33
+//@   ensures [C09,C16] total: true
+//@ // key extraction: the unmarshallers must return a key or an error for every byte string
+//@ func ecdsaPubKeyUnmarshaler$1
+//@   ensures [C09,C16] total: true
+//@ func rsaPubKeyUnmarshaller
+//@   ensures [C09,C16] total: true
